@@ -336,3 +336,48 @@ def renumber_fds(toks, modulo):
             return str((counter[0] - 1) % modulo)
         return payload
     return print_tree(map_leaves(tree, f), False)
+
+
+def near_misses(t):
+    """type trees that differ slightly from t (for 'requesting a type that does not match'): a struct with one more
+    or one less field or one changed field, containers whose inner type is a near miss, another base type"""
+    k = t[0]
+    out = []
+    if k == "b":
+        out.append(("b", "u" if t[1] != "u" else "i"))
+    elif k == "r":
+        fields = t[1]
+        out.append(("r", fields + [("b", "y")]))
+        out.append(("r", fields + [fields[-1]]))
+        if len(fields) > 1:
+            out.append(("r", fields[:-1]))
+            out.append(("r", fields[1:]))
+        for i, f in enumerate(fields):
+            for nm in near_misses(f)[:1]:
+                out.append(("r", fields[:i] + [nm] + fields[i + 1:]))
+    elif k == "a":
+        for nm in near_misses(t[1])[:3]:
+            out.append(("a", nm))
+        out.append(("a", ("a", t[1])))
+    elif k == "e":
+        for nm in near_misses(t[2])[:2]:
+            out.append(("e", t[1], nm))
+        out.append(("e", "s" if t[1] != "s" else "u", t[2]))
+        out.append(("a", ("r", [("b", t[1]), t[2]])))
+    elif k == "v":
+        out.append(("r", [("v", None)]))
+    return out
+
+
+def erase_variants(t):
+    """type tree with static variant contents dropped (the D-Bus type)"""
+    k = t[0]
+    if k == "v":
+        return ("v", None)
+    if k == "a":
+        return ("a", erase_variants(t[1]))
+    if k == "r":
+        return ("r", [erase_variants(x) for x in t[1]])
+    if k == "e":
+        return ("e", t[1], erase_variants(t[2]))
+    return t
